@@ -1,5 +1,10 @@
 """sa.props -- which rules decide which property, and what is (not) decided."""
-from .rules import exc  # noqa: F401
+import importlib
+import pkgutil
+import os
+
+for _m in sorted(pkgutil.iter_modules([os.path.join(os.path.dirname(__file__), "rules")])):
+    importlib.import_module(f"{__package__}.rules.{_m.name}")
 
 PROPS = {}
 
